@@ -108,6 +108,15 @@ def gen_case(rng, tier, ctx, i):
     if rng.random() < 0.03:
         return {"recipe": deep_chain(rng, rng.randint(34, 48)), "seed": rng.getrandbits(32), "after_assume": rng.random() < 0.5, "swap_fixed": False, "deep": True}
     o = common.varied_opts(rng, tier, p_const_leaf=0.3, p_int=0.45)
+    if rng.random() < 0.06:
+        # a configurator is a model too: rules next to items, some of them integer quantities that are already settled (1, 2, 3 pieces)
+        from . import confgen
+        rec = confgen.gen_config(rng)
+        for name in rng.sample(["n", "m", "k"], rng.randint(1, 2)):
+            c = rng.choice([0, 1, 2, 2, 3])
+            rec["args"].append({"k": "var", "id": name, "b": [c, c]})
+        ctx.count("count:configurator-models")
+        return {"recipe": rec, "seed": rng.getrandbits(32), "after_assume": rng.random() < 0.3, "swap_fixed": False}
     rec = common.model_case(rng, tier, o)
     if rec is None:
         return None
